@@ -1636,8 +1636,11 @@ impl<K: Hash + Eq, V, E: OnEvictCallback, S: BuildHasher> RawLRU<K, V, E, S> {
                     }
                 }
             }
+            // (sorted copy + binary search: the audit also runs on lists of 10^5 entries)
+            let mut sorted = fwd.clone();
+            sorted.sort_unstable();
             for (kr, v) in self.map.iter() {
-                if !fwd.contains(&v.as_ptr()) {
+                if sorted.binary_search(&v.as_ptr()).is_err() {
                     return Err(format!("index value is not a node of the list"));
                 }
                 let key_ptr: *const K = (*v.as_ptr()).key.as_ptr();
